@@ -601,6 +601,33 @@ func (st *state) step(i int, op *Op) {
 		st.model = st.model[len(want):]
 		st.segs = st.segs[1:]
 		st.probes["consumed"]++
+	case "WriteOwn":
+		// write bytes the buffer itself handed out (the idiom of bytes.Buffer:
+		// b.Write(b.Bytes())): the argument lies in the buffer's own storage, which a
+		// growing Write replaces and gives back to its pool
+		if len(st.model) == 0 {
+			return
+		}
+		segs, err := s.peek(op.N)
+		if err != nil || len(segs) == 0 {
+			return
+		}
+		src := segs[0]
+		if len(src) == 0 && len(segs) > 1 {
+			src = segs[1]
+		}
+		if len(src) == 0 {
+			return
+		}
+		keep := append([]byte(nil), src...)
+		n, werr := s.write(src)
+		logf("n=%d %s", n, errClass(werr))
+		if n != len(keep) || werr != nil {
+			st.fail(op.K, "count", "Write of %d peeked bytes returned (%d, %v)", len(keep), n, werr)
+			return
+		}
+		st.model = append(st.model, keep...)
+		st.probes["wrote-own-bytes"]++
 	case "PopPushFront":
 		// "un-pop": take the first segment, put its tail back in front, then reuse
 		// the popped slice (PushFront must have copied)
